@@ -750,16 +750,20 @@ Proof.
   unfold recvOff in *. rewrite H1 in *. pose proof consts_buf_two_packets. lia.
 Qed.
 
-(* The full-buffer iteration is reachable and harmless: 33 blocks of 8800 bytes; a failing read that carries as much data as fits fills
-   the buffer exactly (32 blocks, nothing parsed yet); the next Read gets an empty slice, the loop parses the 32 blocks and resets the
-   offsets, and the following read - failing or not - gets the rest. *)
+(* The full-buffer iteration is reachable and harmless (all numbers computed from the translated constants B = buffer size, Max =
+   packet size): k + 1 blocks of n <= Max bytes each, k = B / n; a failing read that carries as much data as fits fills the buffer to the
+   last byte (nothing parsed yet); the next Read gets an empty slice, the loop parses the k complete blocks and moves the rest to the
+   front, and the following read - failing or not - gets the remaining bytes. *)
 Lemma full_buffer_settles_lemma :
-  let b := mk_block 6 (repeat 1 (N.to_nat 8796)) in
-  let bs := repeat b 33 in
-  lenN b = c_MaxNDNPacketSize /\
-  (let '(r, _, c, st) := run true (concat bs) [RIgn 300000] in (r, c, recvOff st)) = (SOk, c_recvBufSize, c_recvBufSize) /\
-  (let '(r, fr, c, st) := run true (concat bs) [RIgn 300000; RIgn 300000] in (r, frames_eqb fr (repeat b 32), c, recvOff st))
-     = (SOk, true, 290400, 8800) /\
-  (let '(r, fr, c, st) := run true (concat bs) [RIgn 300000; RReq 300000] in (r, frames_eqb fr bs, c, recvOff st))
-     = (SOk, true, 290400, 0).
-Proof. vm_compute. repeat split. Qed.
+  let b := mk_block 6 (repeat 1 (N.to_nat (c_MaxNDNPacketSize - 10))) in
+  let n := lenN b in
+  let k := c_recvBufSize / n in
+  let bs := repeat b (N.to_nat (k + 1)) in
+  let big := 2 * c_recvBufSize in
+  n <= c_MaxNDNPacketSize /\
+  (let '(r, _, c, st) := run true (concat bs) [RIgn big] in (r, c, recvOff st)) = (SOk, c_recvBufSize, c_recvBufSize) /\
+  (let '(r, fr, c, st) := run true (concat bs) [RIgn big; RIgn big] in (r, frames_eqb fr (repeat b (N.to_nat k)), c, recvOff st))
+     = (SOk, true, (k + 1) * n, n) /\
+  (let '(r, fr, c, st) := run true (concat bs) [RIgn big; RReq big] in (r, frames_eqb fr bs, c, recvOff st))
+     = (SOk, true, (k + 1) * n, 0).
+Proof. vm_compute. repeat split. discriminate. Qed.
